@@ -208,6 +208,16 @@ func init() {
 		}()
 		return res
 	})
+	// Terminates(id, f): f runs as usual, but a loop that goes round more often than the loop
+	// bound allows is the violation `id` (the harness's input is far too small for that many
+	// rounds), not an unwinding failure
+	reg(T+"Terminates", func(ex *Exec, caller *frame, fn *ssa.Function, args []Value) Value {
+		saved := ex.termID
+		ex.termID, _ = concStr(args[1].(Str))
+		defer func() { ex.termID = saved }()
+		ex.callValue(caller, args[2], nil, nil)
+		return nil
+	})
 	reg(rtPkg+".And", func(ex *Exec, caller *frame, fn *ssa.Function, args []Value) Value {
 		return ex.tb.BAnd(args[0].(*term.T), args[1].(*term.T))
 	})
